@@ -40,3 +40,32 @@ Proof.
   unfold gb_positions_form0, gb_positions_form1, gff_positions. split; [|reflexivity].
   destruct (f_rev f); [|reflexivity]. rewrite rev_concat, <- map_rev, map_map. reflexivity.
 Qed.
+
+(* ---- the region record each path hands to the caller (name, strand, ordered positions, one residue per codon) ---- *)
+Record aregion := { ar_name : list N; ar_rev : bool; ar_pos : list nat; ar_trans : list N }.
+(* GFF3: the translation is computed from the reference bases at the positions *)
+Definition region_gff (genome : list N) (f : feat) : res aregion :=
+  bind (gff_translation genome f) (fun t => Ok {| ar_name := f_name f; ar_rev := f_rev f; ar_pos := gff_positions f; ar_trans := t |}).
+(* GenBank: the /translation qualifier (protein without the stop) plus "*"; form0 = complement(join(..)), form1 = join(complement(..),..) *)
+Definition region_gb (form1 : bool) (f : feat) (translation : list N) : aregion :=
+  {| ar_name := f_name f; ar_rev := f_rev f; ar_pos := if form1 then gb_positions_form1 f else gb_positions_form0 f;
+     ar_trans := translation ++ [42%N] |}.
+
+(* a consistent annotation (the GenBank /translation is what the CDS translates to, stop excluded) gives the SAME region
+   on both paths, in either GenBank spelling of a reverse-strand join *)
+Theorem regions_gb_eq_gff genome f translation form1 :
+  gff_translation genome f = Ok (translation ++ [42%N]) -> region_gff genome f = Ok (region_gb form1 f translation).
+Proof.
+  intros H. unfold region_gff, region_gb. rewrite H. cbn [bind]. destruct (positions_gb_eq_gff f) as [E0 E1].
+  destruct form1; [rewrite E1|rewrite E0]; reflexivity.
+Qed.
+(* and so does every list of features: the two descriptions hand identical inputs to the variant caller *)
+Theorem region_lists_gb_eq_gff genome fs : forall trs forms, length trs = length fs -> length forms = length fs ->
+  (forall k, k < length fs -> gff_translation genome (nth k fs {| f_name := []; f_rev := false; f_segs := []; f_cstart := 1 |}) = Ok (nth k trs [] ++ [42%N])) ->
+  map (region_gff genome) fs = map (@Ok aregion) (map (fun x => region_gb (fst (fst x)) (snd (fst x)) (snd x)) (combine (combine forms fs) trs)).
+Proof.
+  induction fs as [|f t IH]; intros [|tr trs] [|fm forms] Hl1 Hl2 H; try discriminate; [reflexivity|].
+  cbn [map combine fst snd]. f_equal.
+  - apply regions_gb_eq_gff. apply (H 0). cbn. lia.
+  - apply IH; [cbn in Hl1; lia|cbn in Hl2; lia|]. intros k Hk. apply (H (S k)). cbn. lia.
+Qed.
